@@ -6,6 +6,7 @@ import Proofs.Charge
 import Proofs.Charge2
 import Model.World
 import Facts.Generated
+import Proofs.SkvBound
 namespace C16
 open Esdt
 
@@ -184,6 +185,16 @@ theorem charged_saveKeyValue (env : Env) (c : Call) (ctx ctx' : Ctx) (out : VMOu
     (h : saveKeyValue env c ctx = .ok (out, ctx')) :
     charge c.gas out = env.gas.fn.saveKeyValue + skvCost env c.caller c.args.length ctx.accts c.args :=
   (charge_saveKeyValue env c ctx (by simpa [two64] using hb)).elim h
+
+/-- … and under the property's own size assumptions (32-bit schedule entries, fewer than 2^31 argument bytes: C06) the
+    "no 64-bit wrap" premise is a theorem, not a hypothesis: `skvCost ≤ (PersistPerByte + StorePerByte) × argument bytes`
+    (Proofs/SkvBound.lean) -/
+theorem charged_saveKeyValue_sized (env : Env) (c : Call) (ctx ctx' : Ctx) (out : VMOutput)
+    (hp : env.gas.base.persistPerByte < 2 ^ 32) (hs : env.gas.base.storePerByte < 2 ^ 32)
+    (hf : env.gas.fn.saveKeyValue < 2 ^ 32) (hargs : totalLen c.args < 2 ^ 31)
+    (h : saveKeyValue env c ctx = .ok (out, ctx')) :
+    charge c.gas out = env.gas.fn.saveKeyValue + skvCost env c.caller c.args.length ctx.accts c.args :=
+  (charge_saveKeyValue env c ctx (skv_no_wrap env c ctx.accts hp hs hf hargs)).elim h
 
 /-- the first pair of `skvCost`, spelled out (the definition is the recursion over the pairs) -/
 theorem skvCost_pair (env : Env) (a : Bytes) (A : Accts) (k v : Bytes) (rest : List Bytes) (n : Nat) :
